@@ -197,12 +197,12 @@ def build_batches(ctx, gen, lv):
     quick = ctx.quick()
     # (a) round trips of messages
     rt = Batch("roundtrip")
-    for rep in range(1 if quick else 4):
+    for rep in range(1 if quick else 12):
         for m in gen["MSG"]:
             rt.add({"op": "roundtrip", "dir": m["dir"], "msg": lv.fill_in(m["msg"])})
     # (b) hand-written JSON of every shape
     sh = Batch("shapes")
-    for rep in range(1 if quick else 2):
+    for rep in range(1 if quick else 4):
         for i, s in enumerate(gen["SHAPE"]):
             tree = lv.fill_in(s["tree"])
             if rnd.random() < 0.3:
@@ -224,7 +224,7 @@ def build_batches(ctx, gen, lv):
                      "tag": {"slot": c["slot"], "idcase": c["idcase"]}}, run_len=10 ** 9)
     # (d) identifier strings chosen here (length 0..40, characters of every class), judged by IdAccept
     rid = Batch("randomids")
-    nrand = 1500 if quick else 20000
+    nrand = 1500 if quick else 60000
     slots = gen["SLOT"]
     for i in range(nrand):
         n = rnd.choice((20, 20, 20, 20, 19, 21, rnd.randrange(0, 41), rnd.randrange(0, 41)))
@@ -257,6 +257,7 @@ def build_batches(ctx, gen, lv):
         ("out", "files-key", '{"action":"scrape","files":{"%s@":{"complete":1,"incomplete":2,"downloaded":3}}}' % ident[:19]),
     ]
     for d, where, t in templates:
+        u8.reset(where=where)
         pre, post = [list(x.encode("ascii")) for x in t.split("@")]
         for p in gen["UTF8"]:
             u8.add({"op": "rawbin", "dir": d, "bytes": pre + p["bytes"] + post, "name": p["name"], "where": where,
@@ -333,7 +334,7 @@ def run_batch(ctx, b, max_failures=8):
             raise ToolError("%s: rejection outside the run" % b.label)
         ev = json.loads(f["lines"][k])
         case = b.cases.get(ev.get("n"))
-        what = "%s case %s rejected by %s: %s" % (b.label, ev.get("n"), TRACE_MOD, json.dumps(summarize(ev))[:900])
+        what = "%s case %s rejected by %s: %s" % (b.label, ev.get("n"), TRACE_MOD, json.dumps(summarize(ev))[:500])
         report_violation(ctx, what, {"module": TRACE_MOD, "cfg": TRACE_CFG, "case": case, "event": ev}, classify(ev))
     return tpath, failures
 
@@ -351,12 +352,14 @@ def mutate_roundtrip_byte(evs):
     return None
 
 
-def mutate_roundtrip_field(evs):
+def mutate_roundtrip_enc_id(evs):
     for i, e in enumerate(evs):
-        if e.get("ev") == "roundtrip" and e["msg"]["k"] == "announce" and e["msg"]["numwant"]:
+        if e.get("ev") == "roundtrip" and e["msg"]["k"] in ("announce", "ann_resp"):
             m = _copy(evs)
-            m[i]["enc"]["v"] = [p for p in m[i]["enc"]["v"] if p[0] != "numwant"]
-            return m[:i + 1], "member numwant removed from the recorded encoding (case %d)" % e["n"]
+            for p_ in m[i]["enc"]["v"]:
+                if p_[0] == "info_hash":
+                    p_[1]["v"].append(65)
+            return m[:i + 1], "a 21st character appended to the info hash in the recorded encoding (case %d)" % e["n"]
     return None
 
 
@@ -402,7 +405,7 @@ def run(ctx):
     cargo_build(ctx)
     # 2. cases from the specification, concrete leaves
     gen = generate(ctx)
-    lv = Leaves(ctx.seed, big_budget=8 if ctx.quick() else 60)
+    lv = Leaves(ctx.seed, big_budget=8 if ctx.quick() else 150)
     batches = build_batches(ctx, gen, lv)
     if len(lv.byte_seen) != 256:
         raise ToolError("identifiers cover only %d byte values" % len(lv.byte_seen))
@@ -410,7 +413,7 @@ def run(ctx):
     traces = {}
     nfail = 0
     for b in batches:
-        traces[b.label], fails = run_batch(ctx, b, max_failures=14 if b.label == "idtable" else 6)
+        traces[b.label], fails = run_batch(ctx, b, max_failures={"idtable": 14, "randomids": 3}.get(b.label, 6))
         nfail += len(fails)
         ctx.coverage["cases_" + b.label] = b.n
     # vacuity / sanity of the UTF-8 probes: the templates themselves must be acceptable
@@ -432,7 +435,7 @@ def run(ctx):
     # 5. binding self-tests
     if nfail == 0:
         binding_selftest(ctx, TRACE_MOD, TRACE_CFG, traces["roundtrip"], mutate_roundtrip_byte, label="selftest0")
-        binding_selftest(ctx, TRACE_MOD, TRACE_CFG, traces["roundtrip"], mutate_roundtrip_field, label="selftest1")
+        binding_selftest(ctx, TRACE_MOD, TRACE_CFG, traces["roundtrip"], mutate_roundtrip_enc_id, label="selftest1")
         binding_selftest(ctx, TRACE_MOD, TRACE_CFG, traces["idtable"], mutate_accept_overlong, label="selftest2")
         binding_selftest(ctx, TRACE_MOD, TRACE_CFG, traces["shapes"], mutate_reject_valid, label="selftest3")
         binding_selftest(ctx, TRACE_MOD, TRACE_CFG, traces["utf8"], mutate_accept_bad_utf8, label="selftest4")
@@ -458,9 +461,12 @@ def run(ctx):
         "sdp_classes": lv.sdp_classes, "utf8_ill_formed_frames": bad, "utf8_ill_formed_rejected": bad_rejected,
         "utf8_controls_accepted": ok_ctrl,
     })
-    for b in batches[:3]:
-        c = b.cases[min(3, b.n)]
-        ctx.add_sample({"batch": b.label, "case": _short(c)})
+    for lab in ("roundtrip", "shapes", "idtable", "utf8"):
+        for line in open(traces[lab]):
+            e = json.loads(line)
+            if e.get("ev") != "reset" and e.get("json_len", 0) < 600 and e.get("n", 0) >= 3:
+                ctx.add_sample(json.dumps(_short(e, 12))[:700])
+                break
     ctx.assumptions += [
         "the executor's rendering of a tree as JSON text is cross-checked by reading it back with serde_json (a "
         "different parser from the simd-json parser under test); the produced JSON of to_ws_message is read with serde_json",
